@@ -150,14 +150,15 @@ pub fn c09_w_s_try_send_full_drops_item() {
 //   wait_until_empty(..)  -> ready future; before returning, the shared state is replaced by ANOTHER arbitrary
 //                            state satisfying I0 (any number of steps of other actors happened while waiting)
 
-static mut ELAPSED: [u16; 3] = [0; 3];
-static mut ELAPSED_CALLS: usize = 0;
-static mut WAITS: usize = 0;
-static mut TIMEOUT_MS: u16 = 0;
-static mut CAP: usize = 0;
-static mut CLOSED_SEEN: bool = false;
-static mut LAST: Q = ArrQ { items: [0; QN], len: 0 };
-static mut TRUNC: usize = 0;
+// odd non-zero initialisers on purpose (see util.rs); all are stored before use in `send_or_wait_step`
+static mut ELAPSED: [u16; 3] = [0x5E01, 0x5E02, 0x5E03];
+static mut ELAPSED_CALLS: usize = 0x5EED_0000_0000_0011;
+static mut WAITS: usize = 0x5EED_0000_0000_0012;
+static mut TIMEOUT_MS: u16 = 0x5E04;
+static mut CAP: usize = 0x5EED_0000_0000_0013;
+static mut CLOSED_SEEN: bool = true;
+static mut LAST: Q = ArrQ { items: [0x5E; QN], len: 0x5EED_0000_0000_0014 };
+static mut TRUNC: usize = 0x5EED_0000_0000_0015;
 
 fn elapsed() -> Duration {
     unsafe {
